@@ -31,7 +31,9 @@ if not ok:
     if not ok2:
         ck.violation("coq-model-broken", "Coq model of C02 does not compile", {"log": out2[-3000:]}, no_input=True)
         ck.finish({"evaluations": 1, "distinct_nontrivial": 0, "rule": "n/a", "samples": ["model did not compile"]})
+ck.log("theorems re-made")
 ok, out = ck.coq_props()
+ck.log("Props compiled")
 if not ok:
     broken.append(("Props/C02.v", out[-3000:]))
 
@@ -39,6 +41,7 @@ exe, out = ck.go_build("./cmd/hc02")
 if exe is None:
     ck.violation("harness-build", "harness does not build against the repository", {"log": out[-3000:]}, no_input=True)
     ck.finish({"evaluations": 1, "distinct_nontrivial": 0, "rule": "n/a", "samples": ["harness build failed"]})
+ck.log("harness built")
 work = ck.mkscratch()
 res = os.path.join(work, "out.json")
 env = dict(GOENV); env["VERIF_REPO"] = REPO
@@ -72,7 +75,7 @@ Open Scope N_scope.
 # shards: groups packed by size (bytes of Gallina), one coqc per shard
 gtext = {g["ID"]: open(os.path.join(work, "cases", g["File"])).read() for g in groups}
 order = sorted(groups, key=lambda g: -len(gtext[g["ID"]]))
-nshard = 16
+nshard = 8
 shards = [[] for _ in range(nshard)]
 load = [0] * nshard
 for g in order:
@@ -80,6 +83,8 @@ for g in order:
     shards[i].append(g)
     load[i] += len(gtext[g["ID"]]) + 20000
 files = {}
+shard_groups = {}
+evaluated_groups = set()
 for i, gs in enumerate(shards):
     if not gs:
         continue
@@ -87,8 +92,9 @@ for i, gs in enumerate(shards):
     for g in gs:
         n = g["ID"]
         t += gtext[n]
-        t += "Definition V%d := Eval vm_compute in violations T%d F%d.\nDefinition A%d := Eval vm_compute in accepted T%d F%d.\nPrint V%d.\nPrint A%d.\n" % ((n,) * 8)
+        t += "Definition V%d := Eval vm_compute in violations T%d F%d.\nPrint V%d.\n" % ((n,) * 4)
     files["s%02d" % i] = t
+    shard_groups["s%02d" % i] = len(gs)
 results = ck.coq_cases_parallel(files, timeout=6000)
 ck.log("coq evaluation done")
 
@@ -123,16 +129,15 @@ def dump_ir(c):
     return out[-12000:]
 
 
-accepted = 0
+rejected = set()
 eval_failed = []
 nviol = 0
 for name, (rc, out) in sorted(results.items()):
     vs = re.findall(r"^V(\d+)\s*=\s*(.*?)\n\s*:\s", out, re.S | re.M)
-    as_ = re.findall(r"^A(\d+)\s*=\s*(\d+)", out, re.M)
-    if rc != 0 or len(vs) != len(as_) or not vs:
+    if rc != 0 or len(vs) != shard_groups[name] or not vs:
         eval_failed.append((name, out[-2000:]))
         continue
-    accepted += sum(int(a) for _, a in as_)
+    evaluated_groups.update(int(g) for g, _ in vs)
     for gid, V in vs:
         V = re.sub(r"\s+", " ", V).strip()
         if V == "[]":
@@ -141,6 +146,7 @@ for name, (rc, out) in sorted(results.items()):
             c = cases[int(m.group(1))]
             clauses = [x.strip() for x in m.group(2).split(";")]
             kind = clauses[0].split()[0]
+            rejected.add(c["ID"])
             nviol += 1
             if nviol > 12:
                 continue
@@ -151,6 +157,7 @@ for name, (rc, out) in sorted(results.items()):
                          % (c["Func"], c["Corpus"], c["Mode"], CLAUSE_TEXT.get(kind, kind), ", ".join(clauses)),
                          {"case": describe(c), "failed_clauses": clauses, "clause_meaning": CLAUSE_TEXT.get(kind, kind),
                           "ir": dump_ir(c) if nviol <= 3 else "(see print_ir)", "source": src})
+accepted = sum(1 for c in cases if c["Group"] in evaluated_groups and c["ID"] not in rejected)
 if eval_failed:
     ck.violation("cases-eval", "cases file did not evaluate: " + eval_failed[0][0], {"log": eval_failed[0][1]}, no_input=True)
 if broken and not ck.violations:
